@@ -12,6 +12,15 @@ def wrap(section):
     return Wrapped(section)
 
 
+class Wrapped2(Wrapped):
+    """A second, distinguishable wrapper: which section datatype was applied is visible in the tree."""
+    __slots__ = ()
+
+
+def wrap2(section):
+    return Wrapped2(section)
+
+
 def reject_lk_x(section):
     """Section datatype that refuses (ValueError) a section whose 'lk' is 'x'."""
     if getattr(section, "lk", None) == "x":
